@@ -112,7 +112,7 @@ def value_bytes(name, val):
     return None
 
 
-def value_expr(name, val, empty_from=None):
+def value_expr(name, val, empty_from=None, computed=False):
     """BASIC expression producing exactly that value."""
     t = complete(name)[-1]
     if t == '%':
@@ -123,6 +123,8 @@ def value_expr(name, val, empty_from=None):
         return 'CVD(' + '+'.join('CHR$(%d)' % b for b in val) + ')'
     # strings are COMPUTED so that they live in string space: a computed empty string carries the
     # address of the lowest live string (the case the collector must keep apart, seed C11b)
+    if not computed:
+        return '"' + val + '"'
     if val == '':
         # LEFT$(v$,0) of the string variable assigned last allocates nothing in between
         return 'LEFT$(%s,0)' % empty_from if empty_from else 'LEFT$("x",0)'
